@@ -1,6 +1,7 @@
 package main
 
 import (
+	"encoding/base64"
 	"encoding/json"
 	"fmt"
 	"strings"
@@ -70,6 +71,68 @@ type c20Case struct {
 	// process, then this message is pre-decoded and validated
 	AfterPoison int `json:"after_failed_delivery,omitempty"`
 	preFirst    bool
+	// Odd k>0 (shapes the IdP itself signs, applied BEFORE signing): c20Odd[k-1]
+	Odd int `json:"idp_signed_oddity,omitempty"`
+	// Stored k>0: the compressed presentation is hand-framed in stored blocks instead of
+	// compress/flate's output: 1 the stream starts with a tab byte (padding bits of the header)
+	// and the document ends in a line feed, so the stream ends in one; 2 starts with a space
+	// byte, two blocks
+	Stored int `json:"stored_block_framing,omitempty"`
+}
+
+// c20Odd: attributes in foreign namespaces named like the decoded ones, written by the IdP (they
+// are inside whatever it signs). A verified element has its attributes in canonical order, the
+// pre-decoders see document order: "a:" sorts before "b:" (namespace names urn:a, urn:b).
+var c20Odd = []string{
+	"a:ID-before-ID", "a:ID-after-ID", "b:ID-then-a:ID-after-ID", "b:ID-then-a:ID-before-ID",
+	"a:Destination-before-Destination", "a:InResponseTo-before-InResponseTo", "a:Version-before-Version",
+	"b:Destination-then-a:Destination-after-Destination",
+}
+
+func c20ApplyOdd(root *etree.Element, odd string) {
+	decl := []etree.Attr{{Space: "xmlns", Key: "a", Value: "urn:a"}, {Space: "xmlns", Key: "b", Value: "urn:b"}}
+	evil := func(prefix, name string) etree.Attr {
+		v := "evil-" + prefix
+		if name == "Destination" {
+			v = "https://evil-" + prefix + ".example.com/acs"
+		}
+		if name == "Version" {
+			v = "1.1"
+		}
+		return etree.Attr{Space: prefix, Key: name, Value: v}
+	}
+	parts := strings.Split(odd, "-")
+	// the target attribute is the last word; the qualified ones are listed before "before"/"after"
+	target := parts[len(parts)-1]
+	var q []etree.Attr
+	for _, w := range parts {
+		if i := strings.Index(w, ":"); i > 0 {
+			q = append(q, evil(w[:i], w[i+1:]))
+		}
+	}
+	var out []etree.Attr
+	out = append(out, decl...)
+	before := strings.Contains(odd, "-before-")
+	for _, a := range root.Attr {
+		if a.Space == "" && a.Key == target && before {
+			out = append(out, q...)
+		}
+		out = append(out, a)
+		if a.Space == "" && a.Key == target && !before {
+			out = append(out, q...)
+		}
+	}
+	root.Attr = out
+}
+
+func c20StoredFraming(doc []byte, shape int) []byte {
+	if shape == 1 {
+		d := append(append([]byte{}, doc...), '\n')
+		return c12StoredBlock(true, 0x08, d[:min(len(d), 65535)])
+	}
+	h := min(60, len(doc))
+	rest := doc[h:]
+	return append(c12StoredBlock(false, 0x20, doc[:h]), c12StoredBlock(true, 0, rest[:min(len(rest), 65535)])...)
 }
 
 func c20Apply(shape string, s string) string {
@@ -290,11 +353,25 @@ func c20Exec(c c20Case) (keys []string, detail, class string) {
 				r.Layout.Prefix = 2
 			}
 		}
-		s := string(idp.Bytes(idp.BuildResponse(r), idp.Layout{}))
+		var s string
+		if c.Odd > 0 {
+			r.Sign = idp.SignSpec{}
+			doc := idp.BuildResponse(r)
+			c20ApplyOdd(doc.Root(), c20Odd[c.Odd-1])
+			if c.Signed {
+				idp.SignInPlace(doc.Root(), idp.SignSpec{Key: "K1"})
+			}
+			s = string(idp.Bytes(doc, idp.Layout{}))
+		} else {
+			s = string(idp.Bytes(idp.BuildResponse(r), idp.Layout{}))
+		}
 		for _, sh := range c.Shapes {
 			s = c20Apply(c20Shapes[sh], s)
 		}
 		enc = idp.Encode([]byte(s), c.Deflate)
+		if c.Stored > 0 {
+			enc = base64.StdEncoding.EncodeToString(c20StoredFraming([]byte(s), c.Stored))
+		}
 	default:
 		l := idp.DefaultLogout("LogoutResponse")
 		if c.Signed {
@@ -305,11 +382,25 @@ func c20Exec(c c20Case) (keys []string, detail, class string) {
 				l.Layout.Prefix = 2
 			}
 		}
-		s := string(idp.Bytes(idp.BuildLogout(l), idp.Layout{}))
+		var s string
+		if c.Odd > 0 {
+			l.Sign = idp.SignSpec{}
+			doc := idp.BuildLogout(l)
+			c20ApplyOdd(doc.Root(), c20Odd[c.Odd-1])
+			if c.Signed {
+				idp.SignInPlace(doc.Root(), idp.SignSpec{Key: "K1"})
+			}
+			s = string(idp.Bytes(doc, idp.Layout{}))
+		} else {
+			s = string(idp.Bytes(idp.BuildLogout(l), idp.Layout{}))
+		}
 		for _, sh := range c.Shapes {
 			s = c20Apply(c20Shapes[sh], s)
 		}
 		enc = idp.Encode([]byte(s), c.Deflate)
+		if c.Stored > 0 {
+			enc = base64.StdEncoding.EncodeToString(c20StoredFraming([]byte(s), c.Stored))
+		}
 	}
 	conf := world.SPConf{Store: []string{"K1", "K3"}, NoIssuer: c.NoIssuer}
 	var full, pre c20Fields
@@ -378,6 +469,12 @@ func c20Exec(c c20Case) (keys []string, detail, class string) {
 		}
 		return nil, detail, "full-validation-rejects"
 	}
+	if c.Odd > 0 {
+		names = append(names, "idp-signed:"+c20Odd[c.Odd-1])
+	}
+	if c.Stored > 0 {
+		names = append(names, fmt.Sprintf("stored-block-framing-%d", c.Stored))
+	}
 	shapeKey := strings.Join(names, "+")
 	if c.Genuine != nil {
 		shapeKey = "genuine-layout"
@@ -415,7 +512,7 @@ func c20Replay(raw json.RawMessage) ([]string, string) {
 }
 
 func c20Run(r *mc.Run) {
-	r.Rule = "every document of C08's layout space (same generator and bounds) + attacker-shaped documents with an unsigned root: every combination of <=2 (quick) / <=3 (thorough) of 46 shadowing/layout shapes (namespace-prefixed and duplicated root attributes before/after the real one, two Issuers in either order, foreign-namespace / nested Issuer first, comments/CDATA/character references/whitespace/child element in Issuer, character references and raw TAB/LF/CR in an attribute value, prolog variants, quote style, attribute order, BOM, default namespace, prefix rebinding, an EncryptedAssertion whose plaintext is another Issuer before/after the Issuer or at the end, declarations of unused namespace prefixes named like the decoded attributes) x raw/DEFLATE x IdP issuer configured or not, for SSO Responses and LogoutResponses with signed and unsigned roots (shapes applied after signing); differential oracle; plus a genuine signed message of each kind pre-decoded and validated right after each of 7 deliveries whose decoding fails; non-trivial = full validation accepted, so the two decoders were compared; distinct = distinct case"
+	r.Rule = "every document of C08's layout space (same generator and bounds) + attacker-shaped documents with an unsigned root: every combination of <=2 (quick) / <=3 (thorough) of 46 shadowing/layout shapes (namespace-prefixed and duplicated root attributes before/after the real one, two Issuers in either order, foreign-namespace / nested Issuer first, comments/CDATA/character references/whitespace/child element in Issuer, character references and raw TAB/LF/CR in an attribute value, prolog variants, quote style, attribute order, BOM, default namespace, prefix rebinding, an EncryptedAssertion whose plaintext is another Issuer before/after the Issuer or at the end, declarations of unused namespace prefixes named like the decoded attributes) x raw/DEFLATE x IdP issuer configured or not, for SSO Responses and LogoutResponses with signed and unsigned roots (shapes applied after signing); 8 arrangements of attributes in foreign namespaces named like the decoded ones, written by the IdP before it signs (signed and unsigned roots, both kinds, raw/DEFLATE); compressed presentations hand-framed in stored blocks whose stream starts with a tab or space byte and ends in a line feed; differential oracle; plus a genuine signed message of each kind pre-decoded and validated right after each of 7 deliveries whose decoding fails; non-trivial = full validation accepted, so the two decoders were compared; distinct = distinct case"
 	var cases []c20Case
 	for _, g := range c08Cases(r) {
 		g := g
@@ -444,6 +541,25 @@ func c20Run(r *mc.Run) {
 					}
 				}
 			})
+		}
+	}
+	// what the IdP itself may sign: foreign-namespace attributes named like the decoded ones
+	for _, kind := range []string{"Response", "LogoutResponse"} {
+		for odd := 1; odd <= len(c20Odd); odd++ {
+			for _, signed := range []bool{false, true} {
+				for _, d := range []bool{false, true} {
+					for _, ni := range []bool{false, true} {
+						cases = append(cases, c20Case{Kind: kind, Odd: odd, Signed: signed, Deflate: d, NoIssuer: ni})
+					}
+				}
+			}
+		}
+		// compressed presentations that compress/flate would not write
+		for st := 1; st <= 2; st++ {
+			for _, signed := range []bool{false, true} {
+				cases = append(cases, c20Case{Kind: kind, Stored: st, Signed: signed})
+				cases = append(cases, c20Case{Kind: kind, Stored: st, Signed: signed, Shapes: []int{22}}) // with an XML declaration
+			}
 		}
 	}
 	// sequences (sequential, at the end): a genuine signed message pre-decoded and validated
